@@ -154,6 +154,13 @@ TRANSFORMS = _transforms()
 
 
 def transform_of(c):
+    t = _transform_of(c)
+    tag = c.get("tag") or ""
+    # structured sets (DelaunayGen): the shape is part of the discriminator
+    return t + "-" + tag.split("-")[1] if tag.startswith("gen-") else t
+
+
+def _transform_of(c):
     if c.get("ax", 0) or c.get("ay", 0):
         return "stretched"
     if c["k"] == 0 and c["j"] == [0, 0] and c.get("mul", 1) == 1:
@@ -425,7 +432,7 @@ def run(ctx):
     ctx.extra.update(b1_cases=nb1, b2_cases=total - nb1, cases_in_general_position=gp, not_general_position=notes["notGP"],
                      empty_results=notes["empty"], nonempty_accepted=nonempty, triangles_judged=ntri,
                      max_points=max(len(c["pts"]) for c in cases),
-                     by_transform={k: sum(1 for c in cases if transform_of(c) == k)
+                     by_transform={k: sum(1 for c in cases if _transform_of(c) == k)
                                    for k in ("identity", "scaled", "offset", "scaled-offset", "stretched")})
     stars = sorted(notes["stars"])
     # fan of d accepted triangles at the point inserted last = a cavity of d - 2 invalidated triangles (interior point)
